@@ -30,6 +30,7 @@ CONSTANTS
   WithFlusher = %(flusher)s
   WithSwitch = %(switch)s
   WithGet = %(get)s
+  WithHandle = %(handle)s
   Dev = {%(dev)s}
   OutFile = "%(out)s"
   BatchFilter <- %(bfilter)s
@@ -43,11 +44,11 @@ IMPL_INVS = "INVARIANTS TypeOK RefOK IndexAgree ExistOK UniqueOK ValidOK SyncDur
 
 
 def impl_cfg(slots=2, kvals=2, avals=2, maxbatch=2, maxops=3, cfgs="AllCfgs", thr=2, tmo=1, flusher=False,
-             switch=False, get=True, dev=(), out="", bfilter="AnyBatch", check=True):
+             switch=False, get=True, handle=False, dev=(), out="", bfilter="AnyBatch", check=True):
     return GEN_CFG % dict(
         slots=", ".join(str(i) for i in range(1, slots + 1)), kvals=", ".join(str(i) for i in range(kvals)),
         avals=", ".join(str(i) for i in range(avals)), maxbatch=maxbatch, maxops=maxops, cfgs=cfgs, thr=thr, tmo=tmo,
-        flusher="TRUE" if flusher else "FALSE", switch="TRUE" if switch else "FALSE", get="TRUE" if get else "FALSE",
+        flusher="TRUE" if flusher else "FALSE", switch="TRUE" if switch else "FALSE", get="TRUE" if get else "FALSE", handle="TRUE" if handle else "FALSE",
         dev=", ".join('"%s"' % d for d in dev), out=out, bfilter=bfilter,
         emit="ACTION_CONSTRAINT Emit" if out else "", invs=IMPL_INVS if check else "")
 
@@ -150,6 +151,7 @@ def convert(uni, hist, idx, obs_around_reopen=True, pal=None, storage=None, extr
     storage = (idx // 3) % len(STORAGE) if storage is None else storage
     out = []
     n = idx
+    nh = 0
     for op in ops:
         n += 1
         k = op["op"]
@@ -178,6 +180,16 @@ def convert(uni, hist, idx, obs_around_reopen=True, pal=None, storage=None, extr
                 out.append({"op": "obs"})
         elif k == "flush":
             out.append({"op": "flush", "what": op["what"]})
+        elif k == "eval2":
+            q = op["q"][0]
+            P = PALETTES[pal]
+            qq = [{"f": q["f"], "op": q["op"], "p": P[q["f"]][q["p"] % len(P[q["f"]])]}]
+            nh += 2
+            out.append({"op": "eval", "h": nh, "q": qq})
+            out.append({"op": "eval", "h": nh + 1, "q": qq})
+            out.append({"op": "collect", "h": nh, "lim": -1, "what": "collect"})
+        elif k == "collect2":
+            out.append({"op": "collect", "h": nh + 1, "lim": -1, "what": "collect"})
         elif k in ("tick", "poll", "switch"):
             out.append(dict(op))
         else:
@@ -196,40 +208,53 @@ def dedupe_histories(hists):
 
 # --------------------------------------------------------------------------- random histories
 
-def random_test(uni, rng, idx, nops=40, nslots=8, p_reopen=0.06, p_batch=0.12, p_del=0.15, cfgs=None, pal=None, fields=None, case_heavy=False):
-    sizes = uni["sizes"]
-    cm = uni["casemul"]
-    pal = rng.randrange(len(PALETTES)) if pal is None else pal
+QOPS = ["=", "!=", "<", "<=", ">", ">="]
+IDX_FIELDS = ["A", "U", "F", "N", "T", "E", "PX", "Z"]
+PATTERNS = ["^a", "b$", ".", "^$", "a|z", "^A", "B"]
 
-    def val(f, narrow=True):
+
+class RandGen:
+    """Seeded generator of objects, probes and query chains over the value universes."""
+
+    def __init__(self, uni, rng, pal=None, fields=None, case_heavy=False, nslots=8):
+        self.uni, self.rng = uni, rng
+        self.sizes = uni["sizes"]
+        self.pal = rng.randrange(len(PALETTES)) if pal is None else pal
+        self.flds = fields or rng.sample(IDX_FIELDS, 3)
+        self.case_heavy = case_heavy
+        self.nslots = nslots
+
+    def val(self, f, narrow=True):
+        rng, sizes, uni = self.rng, self.sizes, self.uni
         # values concentrate on a small window so that ties and conflicts are frequent
         if f in ("S", "N", "W", "PY"):
             ncls = sizes[f]
             cls = rng.randrange(min(ncls, 6)) if narrow else rng.randrange(ncls)
-            if f in ("S",):
+            if f == "S":
                 cls = rng.randrange(min(ncls, 10))
-            return case_code(uni, f, cls, rng.randrange(4) if (case_heavy or rng.random() < 0.4) else 0)
+            return case_code(uni, f, cls, rng.randrange(4) if (self.case_heavy or rng.random() < 0.4) else 0)
         n = sizes[f]
         if f == "K":
-            base = PALETTES[pal]["K"][0]
+            base = PALETTES[self.pal]["K"][0]
             return min(n - 1, base + rng.randrange(7)) if rng.random() < 0.85 else rng.randrange(n)
         if f == "V":
             return rng.choice([1, 1, 2, 3, 4, 5, 6, 7]) if rng.random() < 0.25 else rng.choice([1, 2, 3])
         w = min(n, 5)
-        lo = rng.randrange(n - w + 1) if not narrow else min(n - w, PALETTES[pal].get(f, [0])[0])
+        lo = min(n - w, PALETTES[self.pal].get(f, [0])[0])
         return lo + rng.randrange(w) if rng.random() < 0.85 else rng.randrange(n)
 
-    flds = fields or rng.sample(["A", "U", "F", "N", "T", "E", "PX", "Z"], 3)
-
-    def obj():
-        o = {"K": val("K"), "S": val("S")}
-        for f in flds:
-            o[f] = val(f)
-        o["V"] = val("V")
-        if rng.random() < 0.3:
+    def obj(self, valid_only=False):
+        rng, uni = self.rng, self.uni
+        o = {"K": self.val("K"), "S": self.val("S")}
+        for f in self.flds:
+            o[f] = self.val(f)
+        o["V"] = rng.choice([1, 2, 3]) if valid_only else self.val("V")
+        if rng.random() < 0.3 and not valid_only:
             o["W"] = rng.choice([uni["inv"]["W"], uni["inv"]["W"] + 1, uni["tr"]["W"][0], case_code(uni, "W", rng.randrange(6), rng.randrange(3))])
+        elif rng.random() < 0.3:
+            o["W"] = case_code(uni, "W", rng.randrange(6), rng.randrange(3))
         if rng.random() < 0.3:
-            o["PY"] = val("PY")
+            o["PY"] = self.val("PY")
         if "PX" in o or "PY" in o:
             if rng.random() < 0.25:
                 o.pop("PX", None)
@@ -238,54 +263,118 @@ def random_test(uni, rng, idx, nops=40, nslots=8, p_reopen=0.06, p_batch=0.12, p
         o["pl"] = rng.randrange(uni["payloads"])
         return o
 
+    def slot(self):
+        return self.rng.randrange(1, self.nslots + 1)
+
+    def cmp(self, fields=None, conn=""):
+        rng = self.rng
+        f = rng.choice(fields or (["K", "S", "V", "W"] + self.flds))
+        c = {"f": f, "op": rng.choice(QOPS), "p": self.val(f)}
+        if f in ("S", "N", "W", "PY", "Z") and rng.random() < 0.2:
+            c = {"f": f, "op": "~=", "pat": rng.choice(PATTERNS), "p": 0}
+        if conn:
+            c["conn"] = conn
+        return c
+
+    def chain(self, depth=None, last_indexed=None, conns=("and", "or")):
+        rng = self.rng
+        depth = depth or rng.choice([1, 1, 2, 2, 3])
+        q = [self.cmp()]
+        for i in range(1, depth):
+            q.append(self.cmp(conn=rng.choice(conns)))
+        if last_indexed:
+            q[-1] = dict(self.cmp(fields=last_indexed), **({"conn": q[-1]["conn"]} if "conn" in q[-1] else {}))
+        return q
+
+    def batch(self):
+        rng = self.rng
+        n = rng.randrange(1, 6)
+        b = []
+        for j in range(n):
+            s = self.slot()
+            if rng.random() < 0.1 and b:
+                b.append({"slot": b[0]["slot"], "same_as": 1})
+                continue
+            if rng.random() < 0.04 and b:
+                b.append({"slot": 0, "other": True})
+                continue
+            b.append({"slot": s, "o": self.obj()})
+        return {"op": "many", "batch": b, "csize": rng.choice([0, 0, 0, 1, 2, 3])}
+
+
+def random_test(uni, rng, idx, nops=40, nslots=8, p_reopen=0.06, p_batch=0.12, p_del=0.15, cfgs=None, pal=None, fields=None,
+                case_heavy=False, p_query=0.0, abandon=False):
+    g = RandGen(uni, rng, pal=pal, fields=fields, case_heavy=case_heavy, nslots=nslots)
+    c = rng.choice(cfgs) if cfgs else (rng.random() < 0.5, rng.random() < 0.35)
     ops = []
     for _ in range(nops):
         x = rng.random()
         if x < p_reopen:
             ops.append({"op": "obs"})
-            ops.append({"op": "reopen", "close": True, "create": rng.random() < 0.5})
+            ops.append({"op": "reopen", "close": True if (c[1] or not abandon) else rng.random() < 0.5, "create": rng.random() < 0.5})
             ops.append({"op": "obs"})
         elif x < p_reopen + p_batch:
-            n = rng.randrange(1, 6)
-            used = set()
-            b = []
-            for j in range(n):
-                s = rng.randrange(1, nslots + 1)
-                if rng.random() < 0.1 and b:
-                    b.append({"slot": b[0]["slot"], "same_as": 1})
-                    continue
-                if rng.random() < 0.04:
-                    b.append({"slot": 0, "other": True})
-                    continue
-                b.append({"slot": s, "o": obj()})
-            # an unbound slot may appear only once per batch (two new objects would get two ids)
-            seen, bb = set(), []
-            for ent in b:
-                if ent.get("o") is not None and ent["slot"] in seen:
-                    continue
-                seen.add(ent["slot"])
-                bb.append(ent)
-            # re-point same_as after filtering
-            for ent in bb:
-                if "same_as" in ent:
-                    ent["same_as"] = 1
-                    ent["slot"] = bb[0]["slot"]
-            if "same_as" in bb[0] or bb[0].get("other"):
-                bb = [{"slot": rng.randrange(1, nslots + 1), "o": obj()}] + [e for e in bb[1:] if e.get("o") is not None and e["slot"] != bb[0]["slot"]]
-                bb = [bb[0]] + [e for e in bb[1:] if e["slot"] != bb[0]["slot"]]
-            ops.append({"op": "many", "batch": bb, "csize": rng.choice([0, 0, 0, 1, 2, 3])})
+            ops.append(g.batch())
         elif x < p_reopen + p_batch + p_del:
             y = rng.random()
             if y < 0.7:
-                ops.append({"op": "del", "slot": rng.randrange(1, nslots + 1)})
+                ops.append({"op": "del", "slot": g.slot()})
             elif y < 0.78:
                 ops.append({"op": "delall"})
             else:
-                f = rng.choice(["K"] + flds)
-                ops.append({"op": "delsearch", "q": [{"f": f, "op": rng.choice(["=", "!=", "<", "<=", ">", ">="]), "p": val(f)}]})
+                ops.append({"op": "delsearch", "q": g.chain(depth=rng.choice([1, 1, 2]))})
         elif x < p_reopen + p_batch + p_del + 0.08:
             ops.append({"op": "obs", "light": rng.random() < 0.5})
+        elif x < p_reopen + p_batch + p_del + 0.08 + p_query:
+            ops.append({"op": "obs", "light": True, "qs": [g.chain() for _ in range(6)]})
         else:
-            ops.append({"op": "put", "slot": rng.randrange(1, nslots + 1), "o": obj()})
-    c = rng.choice(cfgs) if cfgs else (rng.random() < 0.5, rng.random() < 0.35)
-    return {"id": "rnd%d" % idx, "cfg": make_cfg(c[0], c[1], rng.randrange(len(STORAGE))), "ops": ops, "fields": ["K", "S"] + flds}
+            ops.append({"op": "put", "slot": g.slot(), "o": g.obj()})
+    return {"id": "rnd%d" % idx, "cfg": make_cfg(c[0], c[1], rng.randrange(len(STORAGE))), "ops": ops, "fields": ["K", "S"] + g.flds}
+
+
+def order_test(uni, rng, idx, nobj=8, nq=8, cfgs=None):
+    """C13: a collection with ties, then searches ending on an indexed field collected with Reverse / Limit / One."""
+    g = RandGen(uni, rng, nslots=nobj)
+    c = rng.choice(cfgs) if cfgs else (rng.random() < 0.5, rng.random() < 0.3)
+    ops = [{"op": "put", "slot": s, "o": g.obj(valid_only=True)} for s in range(1, nobj + 1)]
+    for _ in range(rng.randrange(0, 4)):
+        ops.append(rng.choice([{"op": "del", "slot": g.slot()}, {"op": "put", "slot": g.slot(), "o": g.obj(valid_only=True)}]))
+    if rng.random() < 0.3:
+        ops.append({"op": "reopen", "close": True, "create": rng.random() < 0.5})
+    h = 0
+    idxf = ["K", "S"] + [f for f in g.flds]
+    for _ in range(nq):
+        h += 1
+        q = g.chain(depth=rng.choice([1, 1, 2, 3]), last_indexed=idxf, conns=("and",)) if rng.random() < 0.8 else g.chain()
+        ops.append({"op": "eval", "h": h, "q": q})
+        what = "one" if rng.random() < 0.25 else "collect"
+        lim = rng.choice([-1, -1, 0, 1, 2, 3, nobj - 1, nobj, nobj + 1, 1 << 30])
+        ops.append({"op": "collect", "h": h, "rev": rng.random() < 0.4, "lim": -1 if what == "one" else lim, "what": what})
+    ops.append({"op": "obs", "qs": [g.chain(last_indexed=idxf, conns=("and",)) for _ in range(6)]})
+    return {"id": "ord%d" % idx, "cfg": make_cfg(c[0], c[1], rng.randrange(len(STORAGE))), "ops": ops, "fields": ["K", "S"] + g.flds}
+
+
+def snapshot_test(uni, rng, idx, nobj=6, cfgs=None):
+    """C20: twin searches, one collected at once, the other after later writes."""
+    g = RandGen(uni, rng, nslots=nobj + 3)
+    c = rng.choice(cfgs) if cfgs else (rng.random() < 0.5, rng.random() < 0.3)
+    ops = [{"op": "put", "slot": s, "o": g.obj(valid_only=True)} for s in range(1, nobj + 1)]
+    h = 0
+    for _ in range(3):
+        h += 2
+        q = g.chain(depth=rng.choice([1, 1, 1, 2]))
+        ops.append({"op": "eval", "h": h, "q": q})
+        ops.append({"op": "eval", "h": h + 1, "q": q})
+        ops.append({"op": "collect", "h": h, "lim": -1, "what": "collect"})
+        for _ in range(rng.randrange(1, 5)):
+            y = rng.random()
+            if y < 0.5:
+                ops.append({"op": "put", "slot": g.slot(), "o": g.obj(valid_only=True)})
+            elif y < 0.85:
+                ops.append({"op": "del", "slot": g.slot()})
+            elif y < 0.93:
+                ops.append(g.batch())
+            else:
+                ops.append({"op": "delsearch", "q": g.chain(depth=1)})
+        ops.append({"op": "collect", "h": h + 1, "lim": -1, "what": "collect"})
+    return {"id": "snap%d" % idx, "cfg": make_cfg(c[0], c[1], rng.randrange(len(STORAGE))), "ops": ops, "fields": ["K", "S"] + g.flds}
